@@ -45,6 +45,7 @@ CHECKS = {
     'C13': 'dst.checks.c13',
     'C14': 'dst.checks.c14',
     'C15': 'dst.checks.c15',
+    'C16': 'dst.checks.c16',
 }
 
 DEFAULT_SEEDS = {'quick': 400, 'thorough': 20000}
